@@ -237,6 +237,7 @@ type omap struct {
 	entries []omapEntry
 	index   map[int][]int // hash -> entry indexes
 	n       int
+	symKeys bool // some key is a symbolic scalar (resolved by G.mapKey, compared by term identity here)
 }
 
 func makeMap(kt types.Type) *omap {
@@ -245,6 +246,14 @@ func makeMap(kt types.Type) *omap {
 
 func (m *omap) find(k value) int {
 	if m == nil {
+		return -1
+	}
+	if ks, ok := k.(Sym); ok {
+		for i := range m.entries {
+			if es, ok := m.entries[i].k.(Sym); ok && !m.entries[i].deleted && es.T == ks.T {
+				return i
+			}
+		}
 		return -1
 	}
 	h := hash(m.keyType, k)
@@ -268,8 +277,12 @@ func (m *omap) insert(k, v value) {
 		m.entries[i].v = v
 		return
 	}
-	h := hash(m.keyType, k)
-	m.index[h] = append(m.index[h], len(m.entries))
+	if _, ok := k.(Sym); ok {
+		m.symKeys = true
+	} else {
+		h := hash(m.keyType, k)
+		m.index[h] = append(m.index[h], len(m.entries))
+	}
 	m.entries = append(m.entries, omapEntry{k: k, v: v})
 	m.n++
 }
